@@ -31,9 +31,10 @@ GEN_THEOREMS = ["fuzzy_choice", "fuzzy_match", "fuzzy_update", "fuzzy_new", "art
 
 def prepare(ctx):
     """Translator tie (see gen_tie.py): the kernels of FuzzyART / ART1 / ART2A / HypersphereART"""
-    from .gen_tie import gen_prepare
-    gen_prepare(ctx, GEN_THEOREMS, "category_choice / match_criterion / update / new_weight of FuzzyART, ART1, ART2A, HypersphereART, EllipsoidART, GaussianART; "
-                "match_criterion_bin of BaseART / BayesianART and the comparison operator per mode")
+    from .gen_tie import gen_prepare, extra_theorems
+    from .. import k2trans
+    gen_prepare(ctx, GEN_THEOREMS + extra_theorems("k2trans"), "category_choice / match_criterion / update / new_weight of FuzzyART, ART1, ART2A, HypersphereART, EllipsoidART, GaussianART; "
+                "match_criterion_bin of BaseART / BayesianART and the comparison operator per mode; " + k2trans.COVERS)
 
 
 def close(a, q, tol=1e-12):
